@@ -937,17 +937,6 @@ class Node:
         if peer:
             peer.statistics.add_received_req()
 
-        if msg.header.is_request and self.validate_received_request_avps:
-            failed_avp = validate_message_avps(msg)
-            if failed_avp:
-                self.logger.warning(f"{conn} message failed AVP validation")
-                err = self._generate_answer(conn, msg)
-                err.result_code = constants.E_RESULT_CODE_DIAMETER_MISSING_AVP
-                err.error_message = "Mandatory AVPs missing"
-                err.failed_avp = FailedAvp(additional_avps=failed_avp)
-                self.send_message(conn, err)
-                return
-
         # rfc6733, 5.5.4, check for T flag and reject if already processed
         if (origin_host is not None and msg.header.is_request and
                 msg.header.is_retransmit and
@@ -962,6 +951,17 @@ class Node:
             err.error_messge = "Duplicate request detected"
             self.send_message(conn, err)
             return
+
+        if msg.header.is_request and self.validate_received_request_avps:
+            failed_avp = validate_message_avps(msg)
+            if failed_avp:
+                self.logger.warning(f"{conn} message failed AVP validation")
+                err = self._generate_answer(conn, msg)
+                err.result_code = constants.E_RESULT_CODE_DIAMETER_MISSING_AVP
+                err.error_message = "Mandatory AVPs missing"
+                err.failed_avp = FailedAvp(additional_avps=failed_avp)
+                self.send_message(conn, err)
+                return
 
         try:
             match (msg.header.is_request, msg.header.command_code):
